@@ -112,9 +112,22 @@ def Bound.ofAttr : Option Attr → Bound
 
 /-! ## Constants -/
 
-/-- `Constant(value)`: a scalar or a 1-D list. -/
-inductive ConstPat where
+/-- a tolerance (`rel_tol` / `abs_tol`) as an exact fraction -/
+structure Tol where
+  num : Nat
+  den : Nat
+  deriving DecidableEq, Repr, Inhabited
+
+/-- the value of a `Constant` pattern: a scalar or a 1-D list -/
+inductive ConstShape where
   | scalar (c : Int) | list (l : List Int)
+  deriving DecidableEq, Repr, Inhabited
+
+/-- `Constant(value, rel_tol, abs_tol)` -/
+structure ConstPat where
+  val : ConstShape
+  relTol : Tol
+  absTol : Tol
   deriving DecidableEq, Repr, Inhabited
 
 /-- `value.const_value` as a numpy array: shape and flat data. -/
